@@ -782,6 +782,11 @@ def attribute(settings, diverging):
     exact = sorted("%s=%s" % dv for dv, who in dims.items() if who == names)
     if exact:
         return exact[0]
+    # ... or the values of one dimension (e.g. optimizer level 1 or 2)
+    for d in sorted({d for d, _ in dims}):
+        vals = sorted({s.feat[d] for s in diverging if d in s.feat}, key=str)
+        if vals and {s.name for s in settings if s.feat.get(d) in vals} == names:
+            return "%s in {%s}" % (d, ",".join(str(v) for v in vals))
     common = sorted("%s=%s" % dv for dv, who in dims.items() if names <= who)
     return ("with " + "+".join(common) if common else "settings") + ":" + ",".join(sorted(names))
 
